@@ -455,6 +455,24 @@ class Pipeline:
             cont(st, z3.Not(e) if c.endswith('ne') else e)
         add(r'^<(str|&str|String|std::string::String) as PartialEq(<.*>)?>::(eq|ne)$|^core::str::traits::<impl PartialEq for str>::(eq|ne)$', m_str_eq, 'str equality on tokens')
 
+        def m_bytes_empty(I, st, c, args, cont, depth, site):
+            try:
+                v = I.deref(st, args[0]) if isinstance(args[0], Ref) else args[0]
+            except Inconclusive:
+                return NotImplemented
+            if isinstance(v, Struct) and v.ty == 'SectionData':
+                v = v.get('data')
+            if isinstance(v, Opaque) and v.name.startswith('bytes:'):
+                ln = z3.BitVec('len[%s]' % v.name, 64)
+                if ('lenbound', v.name) not in st.meta:
+                    st.meta[('lenbound', v.name)] = True
+                    st.pc.append(z3.ULT(ln, z3.BitVecVal(1 << 32, 64)))
+                if c.endswith('is_empty'):
+                    return cont(st, ln == 0)
+                return cont(st, BV(ln, 'usize'))
+            return NotImplemented
+        add(r'^(core|std)::slice::<impl \[u8\]>::(is_empty|len)$|^(std::vec::)?Vec::<u8>::(is_empty|len)$|^<Cow<.*\[u8\]> as .*>::(is_empty|len)$', m_bytes_empty, 'length / emptiness of an opaque payload token = one symbolic length per token', front=True)
+
         def m_to_vec_u8(I, st, c, args, cont, depth, site):
             v = I.deref(st, args[0]) if isinstance(args[0], Ref) else args[0]
             if isinstance(v, Opaque):
@@ -504,7 +522,16 @@ class Pipeline:
             pl.nsink = getattr(pl, 'nsink', 0) + 1
 
             def fin(st2, vals):
-                cont(st2, Struct('enc:Function', (VecVal([('new',) + tuple(vals)]), pl.nsink), ('entries', 'k')))
+                k_ = pl.nsink
+                # encoded locals declaration: LEB(#groups) + per group LEB(count) + one type byte (contract of Function::new)
+                try:
+                    groups = vals[0].items if vals and isinstance(vals[0], VecVal) else None
+                    if groups is not None:
+                        ln = _leb_int(len(groups)) + sum(_leb_int(conc(g.f[0])) + 1 for g in groups)
+                        st2.pc.append(flen(k_, 0) == z3.BitVecVal(ln, 64))
+                except Inconclusive:
+                    pass
+                cont(st2, Struct('enc:Function', (VecVal([('new',) + tuple(vals)]), k_), ('entries', 'k')))
             pl.snap_all(st, list(args), depth, fin)
         add(r'^wasm_encoder::Function::new(::<.*>)?$', m_fn_new, 'wasm_encoder::Function::new(locals) = record', front=True)
 
@@ -678,6 +705,14 @@ class Pipeline:
 
 
 LEB_APPS = {}
+
+
+def _leb_int(n):
+    k = 1
+    while n >= 128:
+        n >>= 7
+        k += 1
+    return k
 
 
 def leblen(t):
